@@ -78,7 +78,7 @@ Definition pj_value (p : pj) : json := sc_json (pj_val p).
 (* ---------- helpers and decorators known to the model ---------- *)
 Inductive macro_id :=
 | M_str | M_i64 | M_u64 | M_f64 | M_bool | M_arr | M_obj | M_null | M_json | M_vec
-| M_0 | M_2 | M_3 | M_o0 | M_o1 | M_o2 | M_args | M_kw | M_all | M_ret_i | M_ret_b.
+| M_0 | M_2 | M_3 | M_o0 | M_o1 | M_o2 | M_args | M_kw | M_all | M_ret_i | M_ret_b | M_ret_j.
 
 Inductive helper_id :=
 | HIf | HUnless | HEach | HWith | HLookup | HRaw | HLog
